@@ -1,1 +1,595 @@
-// helpers for driving the crate's API
+//! Helpers for driving the crate's public API: shared in-memory sink, option/call descriptions
+//! that can be serialised into replay files, a call-level executor with per-call panic capture,
+//! and an "observe everything" routine for the seekable reader.
+
+use crate::util::{guard, hex, unhex};
+use serde_json::{json, Value};
+use std::cell::RefCell;
+use std::io::{self, Cursor, Read, Seek, SeekFrom, Write};
+use std::mem::ManuallyDrop;
+use std::rc::Rc;
+use zip::unstable::write::FileOptionsExt;
+use zip::write::FileOptions;
+use zip::{CompressionMethod, DateTime, ZipArchive, ZipWriter};
+
+// ---------------------------------------------------------------------------------------------
+// shared sink
+
+#[derive(Clone, Default)]
+pub struct SharedBuf(pub Rc<RefCell<Cursor<Vec<u8>>>>);
+impl SharedBuf {
+    pub fn new(v: Vec<u8>) -> SharedBuf {
+        SharedBuf(Rc::new(RefCell::new(Cursor::new(v))))
+    }
+    pub fn snapshot(&self) -> Vec<u8> {
+        self.0.borrow().get_ref().clone()
+    }
+    pub fn len(&self) -> usize {
+        self.0.borrow().get_ref().len()
+    }
+    pub fn hash(&self) -> u64 {
+        crate::util::fnv(self.0.borrow().get_ref())
+    }
+    pub fn pos(&self) -> u64 {
+        self.0.borrow().position()
+    }
+}
+impl Read for SharedBuf {
+    fn read(&mut self, buf: &mut [u8]) -> io::Result<usize> {
+        self.0.borrow_mut().read(buf)
+    }
+}
+impl Write for SharedBuf {
+    fn write(&mut self, buf: &[u8]) -> io::Result<usize> {
+        self.0.borrow_mut().write(buf)
+    }
+    fn flush(&mut self) -> io::Result<()> {
+        Ok(())
+    }
+}
+impl Seek for SharedBuf {
+    fn seek(&mut self, pos: SeekFrom) -> io::Result<u64> {
+        self.0.borrow_mut().seek(pos)
+    }
+}
+
+// ---------------------------------------------------------------------------------------------
+// options
+
+#[allow(deprecated)]
+pub fn method_of(m: u16) -> CompressionMethod {
+    CompressionMethod::from_u16(m)
+}
+#[allow(deprecated)]
+pub fn method_id(m: CompressionMethod) -> u16 {
+    m.to_u16()
+}
+
+#[derive(Clone, Debug, PartialEq)]
+pub struct FOpts {
+    pub method: u16,
+    pub level: Option<i32>,
+    pub date: u16,
+    pub time: u16,
+    pub perm: Option<u32>,
+    pub large: bool,
+    pub password: Option<Vec<u8>>,
+}
+impl Default for FOpts {
+    fn default() -> Self {
+        FOpts { method: 0, level: None, date: 0x5821, time: 0x6000, perm: None, large: false, password: None }
+    }
+}
+impl FOpts {
+    pub fn m(method: u16) -> FOpts {
+        FOpts { method, ..Default::default() }
+    }
+    pub fn to_zip(&self) -> FileOptions {
+        let mut o = FileOptions::default()
+            .compression_method(method_of(self.method))
+            .compression_level(self.level)
+            .last_modified_time(DateTime::from_msdos(self.date, self.time))
+            .large_file(self.large);
+        if let Some(p) = self.perm {
+            o = o.unix_permissions(p);
+        }
+        if let Some(pw) = &self.password {
+            o = o.with_deprecated_encryption(pw);
+        }
+        o
+    }
+    pub fn to_json(&self) -> Value {
+        json!({"method": self.method, "level": self.level, "date": self.date, "time": self.time,
+               "perm": self.perm, "large": self.large, "password": self.password.as_ref().map(|p| hex(p))})
+    }
+    pub fn from_json(v: &Value) -> FOpts {
+        FOpts {
+            method: v["method"].as_u64().unwrap_or(0) as u16,
+            level: v["level"].as_i64().map(|x| x as i32),
+            date: v["date"].as_u64().unwrap_or(0x5821) as u16,
+            time: v["time"].as_u64().unwrap_or(0x6000) as u16,
+            perm: v["perm"].as_u64().map(|x| x as u32),
+            large: v["large"].as_bool().unwrap_or(false),
+            password: v["password"].as_str().map(unhex),
+        }
+    }
+}
+
+/// A string that may be long: serialised as {"rep": "n", "count": 65535} when it is a repetition.
+pub fn name_json(s: &str) -> Value {
+    if s.len() > 64 {
+        let first = s.chars().next().unwrap();
+        if s.chars().all(|c| c == first) {
+            return json!({"rep": first.to_string(), "count": s.chars().count()});
+        }
+    }
+    json!(s)
+}
+pub fn name_from_json(v: &Value) -> String {
+    if let Some(s) = v.as_str() {
+        return s.to_string();
+    }
+    let rep = v["rep"].as_str().unwrap_or("n");
+    rep.repeat(v["count"].as_u64().unwrap_or(0) as usize)
+}
+pub fn bytes_json(b: &[u8]) -> Value {
+    if b.len() > 64 {
+        if b.iter().all(|&c| c == b[0]) {
+            return json!({"rep_byte": b[0], "count": b.len()});
+        }
+        return json!({"gen": "content", "len": b.len(), "fnv": crate::util::fnv(b)});
+    }
+    json!(hex(b))
+}
+pub fn bytes_from_json(v: &Value, regen: &dyn Fn(usize) -> Vec<u8>) -> Vec<u8> {
+    if let Some(s) = v.as_str() {
+        return unhex(s);
+    }
+    if let Some(c) = v.get("rep_byte") {
+        return vec![c.as_u64().unwrap_or(0) as u8; v["count"].as_u64().unwrap_or(0) as usize];
+    }
+    regen(v["len"].as_u64().unwrap_or(0) as usize)
+}
+
+// ---------------------------------------------------------------------------------------------
+// call-level description of writer programs
+
+#[derive(Clone, Debug, PartialEq)]
+pub enum Call {
+    SetComment(Vec<u8>),
+    Write(Vec<u8>),
+    Flush,
+    StartFile { name: String, opts: FOpts },
+    StartAligned { name: String, opts: FOpts, align: u16 },
+    StartExtra { name: String, opts: FOpts },
+    EndLocalStartCentral,
+    EndExtra,
+    AddDir { name: String, opts: FOpts },
+    AddSymlink { name: String, target: String, opts: FOpts },
+    /// copy entry `idx` of source archive `src`; `raw_open`: open it with by_index_raw
+    RawCopy { src: usize, idx: usize, rename: Option<String>, raw_open: bool },
+    Finish,
+    Drop,
+}
+
+impl Call {
+    pub fn opname(&self) -> &'static str {
+        match self {
+            Call::SetComment(_) => "set_comment",
+            Call::Write(_) => "write",
+            Call::Flush => "flush",
+            Call::StartFile { .. } => "start_file",
+            Call::StartAligned { .. } => "start_file_aligned",
+            Call::StartExtra { .. } => "start_file_with_extra_data",
+            Call::EndLocalStartCentral => "end_local_start_central_extra_data",
+            Call::EndExtra => "end_extra_data",
+            Call::AddDir { .. } => "add_directory",
+            Call::AddSymlink { .. } => "add_symlink",
+            Call::RawCopy { rename: None, .. } => "raw_copy_file",
+            Call::RawCopy { .. } => "raw_copy_file_rename",
+            Call::Finish => "finish",
+            Call::Drop => "drop",
+        }
+    }
+    pub fn to_json(&self) -> Value {
+        match self {
+            Call::SetComment(c) => json!({"op":"set_comment","comment":bytes_json(c)}),
+            Call::Write(d) => json!({"op":"write","data":bytes_json(d)}),
+            Call::Flush => json!({"op":"flush"}),
+            Call::StartFile { name, opts } => json!({"op":"start_file","name":name_json(name),"opts":opts.to_json()}),
+            Call::StartAligned { name, opts, align } => json!({"op":"start_file_aligned","name":name_json(name),"opts":opts.to_json(),"align":align}),
+            Call::StartExtra { name, opts } => json!({"op":"start_file_with_extra_data","name":name_json(name),"opts":opts.to_json()}),
+            Call::EndLocalStartCentral => json!({"op":"end_local_start_central_extra_data"}),
+            Call::EndExtra => json!({"op":"end_extra_data"}),
+            Call::AddDir { name, opts } => json!({"op":"add_directory","name":name_json(name),"opts":opts.to_json()}),
+            Call::AddSymlink { name, target, opts } => json!({"op":"add_symlink","name":name_json(name),"target":name_json(target),"opts":opts.to_json()}),
+            Call::RawCopy { src, idx, rename, raw_open } => json!({"op":"raw_copy","src":src,"idx":idx,"rename":rename.as_ref().map(|s| name_json(s)),"raw_open":raw_open}),
+            Call::Finish => json!({"op":"finish"}),
+            Call::Drop => json!({"op":"drop"}),
+        }
+    }
+    pub fn from_json(v: &Value, regen: &dyn Fn(usize) -> Vec<u8>) -> Option<Call> {
+        let o = || FOpts::from_json(&v["opts"]);
+        let n = || name_from_json(&v["name"]);
+        Some(match v["op"].as_str()? {
+            "set_comment" => Call::SetComment(bytes_from_json(&v["comment"], regen)),
+            "write" => Call::Write(bytes_from_json(&v["data"], regen)),
+            "flush" => Call::Flush,
+            "start_file" => Call::StartFile { name: n(), opts: o() },
+            "start_file_aligned" => Call::StartAligned { name: n(), opts: o(), align: v["align"].as_u64()? as u16 },
+            "start_file_with_extra_data" => Call::StartExtra { name: n(), opts: o() },
+            "end_local_start_central_extra_data" => Call::EndLocalStartCentral,
+            "end_extra_data" => Call::EndExtra,
+            "add_directory" => Call::AddDir { name: n(), opts: o() },
+            "add_symlink" => Call::AddSymlink { name: n(), target: name_from_json(&v["target"]), opts: o() },
+            "raw_copy" => Call::RawCopy {
+                src: v["src"].as_u64()? as usize,
+                idx: v["idx"].as_u64()? as usize,
+                rename: if v["rename"].is_null() { None } else { Some(name_from_json(&v["rename"])) },
+                raw_open: v["raw_open"].as_bool().unwrap_or(false),
+            },
+            "finish" => Call::Finish,
+            "drop" => Call::Drop,
+            _ => return None,
+        })
+    }
+}
+
+pub fn calls_json(calls: &[Call]) -> Value {
+    Value::Array(calls.iter().map(|c| c.to_json()).collect())
+}
+pub fn calls_from_json(v: &Value, regen: &dyn Fn(usize) -> Vec<u8>) -> Vec<Call> {
+    v.as_array().map(|a| a.iter().filter_map(|c| Call::from_json(c, regen)).collect()).unwrap_or_default()
+}
+
+/// Result class of one call.
+#[derive(Clone, Debug, PartialEq)]
+pub enum Res {
+    /// Ok; the u64 is the returned number where the call returns one (offsets, padding)
+    Ok(u64),
+    Err(String),
+    Panic(String),
+}
+impl Res {
+    pub fn is_ok(&self) -> bool {
+        matches!(self, Res::Ok(_))
+    }
+    pub fn is_err(&self) -> bool {
+        matches!(self, Res::Err(_))
+    }
+    pub fn is_panic(&self) -> bool {
+        matches!(self, Res::Panic(_))
+    }
+    pub fn class(&self) -> &'static str {
+        match self {
+            Res::Ok(_) => "ok",
+            Res::Err(_) => "err",
+            Res::Panic(_) => "panic",
+        }
+    }
+    pub fn show(&self) -> String {
+        match self {
+            Res::Ok(v) => format!("Ok({v})"),
+            Res::Err(e) => format!("Err({e})"),
+            Res::Panic(p) => format!("PANIC({p})"),
+        }
+    }
+}
+
+/// The writer under test; kept in a ManuallyDrop so that a panic inside a call does not unwind
+/// into `Drop for ZipWriter` (which would panic again and abort the process).
+pub struct W<S: Write + Seek> {
+    zw: ManuallyDrop<ZipWriter<S>>,
+    /// the object is gone (dropped explicitly, or forgotten after a panic)
+    pub gone: bool,
+    pub panicked: bool,
+}
+
+impl<S: Write + Seek> W<S> {
+    pub fn new(sink: S) -> W<S> {
+        W { zw: ManuallyDrop::new(ZipWriter::new(sink)), gone: false, panicked: false }
+    }
+    pub fn from_writer(zw: ZipWriter<S>) -> W<S> {
+        W { zw: ManuallyDrop::new(zw), gone: false, panicked: false }
+    }
+    pub fn alive(&self) -> bool {
+        !self.gone
+    }
+    pub fn writer(&self) -> &ZipWriter<S> {
+        &self.zw
+    }
+    fn run<T>(&mut self, f: impl FnOnce(&mut ZipWriter<S>) -> Result<T, String>, conv: impl FnOnce(T) -> u64) -> Res {
+        if self.gone {
+            return Res::Err("<writer object gone>".into());
+        }
+        let zw: &mut ZipWriter<S> = &mut self.zw;
+        match guard(|| f(zw)) {
+            Ok(Ok(v)) => Res::Ok(conv(v)),
+            Ok(Err(e)) => Res::Err(e),
+            Err(p) => {
+                // forget the object: its Drop would run finalize() on a half-updated state
+                self.gone = true;
+                self.panicked = true;
+                Res::Panic(p)
+            }
+        }
+    }
+    /// Execute one call. `sources` are the archives raw copies read from.
+    pub fn call(&mut self, c: &Call, sources: &[Vec<u8>]) -> Res {
+        match c {
+            Call::SetComment(cm) => {
+                let cm = cm.clone();
+                self.run(
+                    move |z| {
+                        z.set_raw_comment(cm);
+                        Ok(())
+                    },
+                    |_| 0,
+                )
+            }
+            Call::Write(d) => self.run(|z| z.write_all(d).map_err(|e| e.to_string()), |_| 0),
+            Call::Flush => self.run(|z| z.flush().map_err(|e| e.to_string()), |_| 0),
+            Call::StartFile { name, opts } => self.run(|z| z.start_file(name.clone(), opts.to_zip()).map_err(|e| e.to_string()), |_| 0),
+            Call::StartAligned { name, opts, align } => {
+                self.run(|z| z.start_file_aligned(name.clone(), opts.to_zip(), *align).map_err(|e| e.to_string()), |v| v)
+            }
+            Call::StartExtra { name, opts } => {
+                self.run(|z| z.start_file_with_extra_data(name.clone(), opts.to_zip()).map_err(|e| e.to_string()), |v| v)
+            }
+            Call::EndLocalStartCentral => self.run(|z| z.end_local_start_central_extra_data().map_err(|e| e.to_string()), |v| v),
+            Call::EndExtra => self.run(|z| z.end_extra_data().map_err(|e| e.to_string()), |v| v),
+            Call::AddDir { name, opts } => self.run(|z| z.add_directory(name.clone(), opts.to_zip()).map_err(|e| e.to_string()), |_| 0),
+            Call::AddSymlink { name, target, opts } => {
+                self.run(|z| z.add_symlink(name.clone(), target.clone(), opts.to_zip()).map_err(|e| e.to_string()), |_| 0)
+            }
+            Call::RawCopy { src, idx, rename, raw_open } => {
+                let data = match sources.get(*src) {
+                    Some(d) => d,
+                    None => return Res::Err("<no such source>".into()),
+                };
+                self.run(
+                    |z| {
+                        let mut ar = ZipArchive::new(Cursor::new(&data[..])).map_err(|e| format!("source open: {e}"))?;
+                        let f = if *raw_open { ar.by_index_raw(*idx) } else { ar.by_index(*idx) }.map_err(|e| format!("source entry: {e}"))?;
+                        match rename {
+                            Some(n) => z.raw_copy_file_rename(f, n.clone()),
+                            None => z.raw_copy_file(f),
+                        }
+                        .map_err(|e| e.to_string())
+                    },
+                    |_| 0,
+                )
+            }
+            Call::Finish => self.run(|z| z.finish().map(|_| ()).map_err(|e| e.to_string()), |_| 0),
+            Call::Drop => self.drop_now(),
+        }
+    }
+    /// Explicit, separately caught drop.
+    pub fn drop_now(&mut self) -> Res {
+        if self.gone {
+            return Res::Ok(0);
+        }
+        self.gone = true;
+        let zw = &mut self.zw;
+        match guard(|| unsafe { ManuallyDrop::drop(zw) }) {
+            Ok(()) => Res::Ok(0),
+            Err(p) => {
+                self.panicked = true;
+                Res::Panic(p)
+            }
+        }
+    }
+}
+impl<S: Write + Seek> Drop for W<S> {
+    fn drop(&mut self) {
+        if !self.gone {
+            let _ = self.drop_now();
+        }
+    }
+}
+
+/// Run a complete call list against a fresh writer over a shared in-memory sink.
+/// Returns the per-call results and the sink bytes at the end.
+pub fn exec(calls: &[Call], sources: &[Vec<u8>]) -> (Vec<Res>, Vec<u8>) {
+    let sink = SharedBuf::default();
+    let mut w = W::new(sink.clone());
+    let mut out = Vec::with_capacity(calls.len());
+    for c in calls {
+        out.push(w.call(c, sources));
+    }
+    drop(w);
+    (out, sink.snapshot())
+}
+
+// ---------------------------------------------------------------------------------------------
+// reading everything through the seekable reader
+
+#[derive(Clone, Debug, PartialEq)]
+pub struct Obs {
+    pub name: String,
+    pub name_raw: Vec<u8>,
+    pub comment: String,
+    pub method: u16,
+    pub date: u16,
+    pub time: u16,
+    pub mode: Option<u32>,
+    pub size: u64,
+    pub csize: u64,
+    pub crc: u32,
+    pub extra: Vec<u8>,
+    pub header_start: u64,
+    pub central_header_start: u64,
+    pub data_start: u64,
+    pub is_dir: bool,
+    /// decoded content or the error text of open/read
+    pub content: Result<Vec<u8>, String>,
+    /// raw stored bytes
+    pub raw: Result<Vec<u8>, String>,
+}
+
+#[derive(Clone, Debug)]
+pub struct ObsArchive {
+    pub entries: Vec<Obs>,
+    pub comment: Vec<u8>,
+    pub offset: u64,
+}
+
+#[derive(Clone, Debug)]
+pub enum RErr {
+    Panic(String),
+    Open(String),
+}
+
+/// Read `limit` bytes at most per entry (decompression bombs are cut).
+pub fn read_to_end_limited<R: Read>(r: &mut R, limit: usize, bufsize: usize) -> Result<Vec<u8>, String> {
+    let mut out = Vec::new();
+    let mut buf = vec![0u8; bufsize.max(1)];
+    loop {
+        match r.read(&mut buf) {
+            Ok(0) => return Ok(out),
+            Ok(n) => {
+                out.extend_from_slice(&buf[..n]);
+                if out.len() > limit {
+                    return Err("<output limit exceeded>".into());
+                }
+            }
+            Err(e) => return Err(e.to_string()),
+        }
+    }
+}
+
+pub fn observe(bytes: &[u8], password: Option<&[u8]>, limit: usize) -> Result<ObsArchive, RErr> {
+    observe_r(Cursor::new(bytes), password, limit)
+}
+
+pub fn observe_r<R: Read + Seek>(reader: R, password: Option<&[u8]>, limit: usize) -> Result<ObsArchive, RErr> {
+    let mut ar = match guard(|| ZipArchive::new(reader)) {
+        Err(p) => return Err(RErr::Panic(format!("ZipArchive::new: {p}"))),
+        Ok(Err(e)) => return Err(RErr::Open(e.to_string())),
+        Ok(Ok(a)) => a,
+    };
+    let mut out = ObsArchive { entries: vec![], comment: ar.comment().to_vec(), offset: ar.offset() };
+    for i in 0..ar.len() {
+        let r = guard(|| {
+            // metadata + raw bytes
+            let (mut o, raw) = {
+                let mut f = match ar.by_index_raw(i) {
+                    Ok(f) => f,
+                    Err(e) => return Err(format!("by_index_raw({i}): {e}")),
+                };
+                let o = Obs {
+                    name: f.name().to_string(),
+                    name_raw: f.name_raw().to_vec(),
+                    comment: f.comment().to_string(),
+                    method: method_id(f.compression()),
+                    date: f.last_modified().datepart(),
+                    time: f.last_modified().timepart(),
+                    mode: f.unix_mode(),
+                    size: f.size(),
+                    csize: f.compressed_size(),
+                    crc: f.crc32(),
+                    extra: f.extra_data().to_vec(),
+                    header_start: f.header_start(),
+                    central_header_start: f.central_header_start(),
+                    data_start: f.data_start(),
+                    is_dir: f.is_dir(),
+                    content: Err(String::new()),
+                    raw: Err(String::new()),
+                };
+                let raw = read_to_end_limited(&mut f, limit, 1 << 16);
+                (o, raw)
+            };
+            o.raw = raw;
+            let opened = match password {
+                Some(pw) => match ar.by_index_decrypt(i, pw) {
+                    Ok(Ok(f)) => Ok(f),
+                    Ok(Err(_)) => Err("<invalid password>".to_string()),
+                    Err(e) => Err(e.to_string()),
+                },
+                None => ar.by_index(i).map_err(|e| e.to_string()),
+            };
+            o.content = match opened {
+                Ok(mut f) => read_to_end_limited(&mut f, limit, 1 << 16),
+                Err(e) => Err(format!("open: {e}")),
+            };
+            Ok(o)
+        });
+        match r {
+            Err(p) => return Err(RErr::Panic(format!("entry {i}: {p}"))),
+            Ok(Err(e)) => return Err(RErr::Open(e)),
+            Ok(Ok(o)) => out.entries.push(o),
+        }
+    }
+    Ok(out)
+}
+
+// ---------------------------------------------------------------------------------------------
+// shared small alphabets (DESIGN section 4)
+
+/// Deterministic content classes, seeded.
+pub fn content_class(class: usize, seed: u64) -> Vec<u8> {
+    let mut rng = crate::util::Rng(seed ^ 0xC0FFEE ^ (class as u64) << 32);
+    match class {
+        0 => vec![],
+        1 => vec![(rng.next() & 0xff) as u8],
+        2 => rng.bytes(17),
+        3 => {
+            let mut v = Vec::new();
+            while v.len() < 300 {
+                v.extend_from_slice(b"the quick brown fox ");
+            }
+            v.truncate(300);
+            v
+        }
+        4 => mixed_content(70_001, &mut rng),
+        5 => mixed_content(3 << 20, &mut rng),
+        _ => vec![0u8; class],
+    }
+}
+fn mixed_content(n: usize, rng: &mut crate::util::Rng) -> Vec<u8> {
+    let mut v = Vec::with_capacity(n);
+    let mut toggle = false;
+    while v.len() < n {
+        let k = (n - v.len()).min(4099);
+        if toggle {
+            v.extend(rng.bytes(k));
+        } else {
+            v.extend(std::iter::repeat(b'z').take(k));
+        }
+        toggle = !toggle;
+    }
+    v
+}
+
+/// METHOD x LEVEL: the documented ranges.
+pub fn all_method_levels() -> Vec<(u16, Option<i32>)> {
+    let mut v = vec![(0u16, None)];
+    v.push((8, None));
+    for l in 0..=9 {
+        v.push((8, Some(l)));
+    }
+    v.push((12, None));
+    for l in 1..=9 {
+        v.push((12, Some(l)));
+    }
+    v.push((93, None));
+    for l in -7..=22 {
+        v.push((93, Some(l)));
+    }
+    v
+}
+
+pub fn expected_mode(kind: u8, perm: Option<u32>) -> u32 {
+    match kind {
+        0 => 0o100000 | perm.map(|p| p & 0o777).unwrap_or(0o644),
+        1 => 0o040000 | perm.map(|p| p & 0o777).unwrap_or(0o755),
+        _ => 0o120000 | perm.map(|p| p & 0o777).unwrap_or(0o777),
+    }
+}
+
+pub fn dir_name(name: &str) -> String {
+    match name.chars().last() {
+        Some('/') | Some('\\') => name.to_string(),
+        _ => format!("{name}/"),
+    }
+}
